@@ -17,7 +17,7 @@ from typing import List, Tuple
 from ..astutil import dotted, norm
 from ..core import Ctx, PropSpec, Unsupported
 from ..extract import fn_stmts, resolve_local, stmt_site, where
-from ..interp import BytesObj, Obj, Raised
+from ..interp import pub, BytesObj, Obj, Raised
 from ..models import make_interp, model_definition, raw_packet
 
 DEF = "xtce/definitions.py"
@@ -173,13 +173,13 @@ def exhaustive_histories(maxlen: int):
 
 
 # ------------------------------------------------------------------------------------------- model evaluation
-def run_history(prog, fi, history, shb: int, combine: bool = True):
+def run_history(prog, fi, history, shb: int, combine: bool = True, extra: dict = None):
     parsed: List[List[bytes]] = []
     warns: List[int] = []
     cur = {"parsed": [], "warn": 0}
 
     def parse_stub(selfv, packet, root_container_name=None):
-        raw = packet.attrs["raw_data"]
+        raw = pub(packet, "raw_data")
         cur["parsed"].append(bytes(raw))
         raw.attrs["pos"] = 8 * len(raw)     # a definition that consumes the packet exactly
         return packet
@@ -218,7 +218,7 @@ def run_history(prog, fi, history, shb: int, combine: bool = True):
         cur["parsed"], cur["warn"] = [], 0
         it.steps = 0
         pk = [raw_packet(data, apid=_ap(a), flags=f, count=c, **_hx(a)) for a, f, c, data in history[:n]]
-        it.call(fi, [selfv, pk], {"combine_segmented_packets": combine, "secondary_header_bytes": shb})
+        it.call(fi, [selfv, pk], dict({"combine_segmented_packets": combine, "secondary_header_bytes": shb}, **(extra or {})))
         newp = cur["parsed"][len(prev_parsed):]
         if cur["parsed"][:len(prev_parsed)] != prev_parsed:
             raise Unsupported("generator output is not prefix-monotone (hidden state?)")
@@ -237,7 +237,7 @@ def run_two_streams(prog, fi, h1, h2):
     cur = {"parsed": [], "warn": 0}
 
     def parse_stub(s_, packet, root_container_name=None):
-        raw = packet.attrs["raw_data"]
+        raw = pub(packet, "raw_data")
         cur["parsed"].append(bytes(raw))
         raw.attrs["pos"] = 8 * len(raw)
         return packet
@@ -305,6 +305,32 @@ def check(ctx: Ctx) -> None:
                             f"{[x.hex() for x in want[k][0]]} warned={want[k][1]}",
                             where=where(fi, fi.node), history=_show(h), step=k)
     ctx.stats["steps_compared"] = nsteps
+    # the other options of the generator do not enter the combination: a record prefix (skip_header_bytes) is removed by the
+    # framer before combining; the read size, progress display and bad-packet option concern other stages
+    sel = [x for x in hs if x[0] in ("interleave A.F A.C B.F A.L B.L", "two groups", "later members with 2-byte data fields",
+                                     "wrap 16382,16383,0,1", "A-open2,B-open + LAST/inseq", "secondary header flag only on FIRST")]
+    for label, extra in (("skip_header_bytes=2", {"skip_header_bytes": 2}), ("skip_header_bytes=4, buffer_read_size_bytes=7", {"skip_header_bytes": 4, "buffer_read_size_bytes": 7}),
+                         ("show_progress, parse_bad_pkts=False", {"show_progress": True, "parse_bad_pkts": False})):
+        for name, h in sel:
+            for shb in (0, 2):
+                site = f"{site0}::history::{name}::shb={shb}::{label}"
+                try:
+                    got = run_history(prog, fi, h, shb, extra=extra)
+                except Raised as r:
+                    ctx.refuted("R12.1", site, f"history {_show(h)} with {label} escapes with {r.exc.tname}", where=where(fi, fi.node))
+                    continue
+                except Unsupported as e:
+                    ctx.unknown("R12.1", site, str(e))
+                    continue
+                want = reference(h, shb)
+                if got == want:
+                    ctx.proved("R12.1", site, steps=len(want))
+                else:
+                    k = next(i for i, (g, w) in enumerate(zip(got, want)) if g != w)
+                    a, f, c, _ = h[k]
+                    ctx.refuted("R12.1", site, f"with {label}: step {k} ({NAMES[f]} apid={a} count={c}) of history {_show(h)}: parser received "
+                                f"{[x.hex() for x in got[k][0]]} warned={got[k][1]}, the reference state machine gives "
+                                f"{[x.hex() for x in want[k][0]]} warned={want[k][1]}", where=where(fi, fi.node))
 
     # combining off: every packet parsed alone, whatever its flags (table never consulted)
     try:
@@ -465,7 +491,8 @@ SPEC = PropSpec(
                  "property states. Thorough tier: all histories up to length 4. Plus the structural constant rule "
                  "R12.4 (modulus = 2**14). Does not decide warning texts."
                  ' APID 0 and 2047 take part like any other; with ccsds_headers_only every raw packet is handed out whatever its flags and the combining option.'
-                 ' Members of one group may differ in version, type and secondary-header flag (the group is identified by its APID alone).'),
+                 ' Members of one group may differ in version, type and secondary-header flag (the group is identified by its APID alone).'
+                 ' Histories include groups whose members all carry telecommand type / a secondary header / version 7 (also on APID 2047), with gaps, in sequence, and with orphans and repeated counts.'),
     rule_doc=("R12.1: one obligation per (designed history, secondary-header length in {0,2}); R12.off: combining "
               "disabled; R12.4: folded modulus; R12.exh (thorough): all histories of length <= 4 over "
               "{F,C,L,U}x{+1,+2} on one APID and {F,C,L}x{2 APIDs} in sequence."),
